@@ -495,6 +495,11 @@ type zzC07Log struct {
 	firstAt map[string]string // where it was when first served
 	discard string
 	queries int
+
+	// Direction B only: incremental reading of the files for the projection.
+	incremental bool
+	cache       map[string]*zzC07FileCache
+	maxFile     int64
 }
 
 func zzC07NewLog(dir string, seed int64) (x *zzC07Log) {
@@ -502,6 +507,7 @@ func zzC07NewLog(dir string, seed int64) (x *zzC07Log) {
 		dir: dir, rng: rand.New(rand.NewSource(seed)),
 		t0: []int64{0}, t1: []int64{0}, exact: []int64{0}, recs: []zzC07Rec{{}},
 		byTime: map[int64]int{}, first: map[string]string{}, firstAt: map[string]string{},
+		cache: map[string]*zzC07FileCache{},
 	}
 }
 
@@ -665,6 +671,70 @@ func zzC07FileTimes(p string) (ts []int64, err error) {
 	return zzC07LineTimes(b)
 }
 
+// zzC07FileCache remembers the timestamps of a file that only grows by
+// appending, so that long histories do not re-read megabytes after every
+// call.  A file whose head differs or which has shrunk is read anew.
+type zzC07FileCache struct {
+	head []byte
+	size int64
+	ts   []int64
+}
+
+func (x *zzC07Log) fileTimes(p string) (ts []int64, err error) {
+	if !x.incremental {
+		return zzC07FileTimes(p)
+	}
+
+	f, err := os.Open(p)
+	if err != nil {
+		delete(x.cache, p)
+		if os.IsNotExist(err) {
+			return nil, nil
+		}
+
+		return nil, err
+	}
+	defer f.Close()
+
+	fi, err := f.Stat()
+	if err != nil {
+		return nil, err
+	}
+
+	head := make([]byte, 64)
+	n, _ := f.ReadAt(head, 0)
+	head = head[:n]
+
+	c := x.cache[p]
+	from := int64(0)
+	if c != nil && fi.Size() >= c.size && bytes.Equal(c.head, head) {
+		from = c.size
+		ts = c.ts
+	}
+
+	if fi.Size() > from {
+		b := make([]byte, fi.Size()-from)
+		if _, err = f.ReadAt(b, from); err != nil {
+			return nil, err
+		}
+
+		var more []int64
+		more, err = zzC07LineTimes(b)
+		if err != nil {
+			return nil, err
+		}
+
+		ts = append(ts[:len(ts):len(ts)], more...)
+	}
+
+	x.cache[p] = &zzC07FileCache{head: head, size: fi.Size(), ts: ts}
+	if fi.Size() > x.maxFile {
+		x.maxFile = fi.Size()
+	}
+
+	return ts, nil
+}
+
 func (x *zzC07Log) ids(ts []int64) (ids []int) {
 	ids = make([]int, len(ts))
 	for i, t := range ts {
@@ -707,12 +777,12 @@ func zzC07NZ(a []int) (b []int) {
 
 // project is the abstraction function.
 func (x *zzC07Log) project(pal int) (s zzC07State, err error) {
-	cur, err := zzC07FileTimes(filepath.Join(x.dir, queryLogFileName))
+	cur, err := x.fileTimes(filepath.Join(x.dir, queryLogFileName))
 	if err != nil {
 		return s, err
 	}
 
-	rot, err := zzC07FileTimes(filepath.Join(x.dir, queryLogFileName+".1"))
+	rot, err := x.fileTimes(filepath.Join(x.dir, queryLogFileName+".1"))
 	if err != nil {
 		return s, err
 	}
@@ -2247,6 +2317,8 @@ func TestZZVerifC07Trace(t *testing.T) {
 
 	defer x.cleanup()
 
+	x.incremental = true
+
 	names := []string{"org", "sub", "com", "idn"}
 	clients := []string{"plain", "cid", "named", "v6"}
 	reasons := make([]string, 0, len(zzC07Reasons))
@@ -2502,7 +2574,16 @@ func TestZZVerifC07Trace(t *testing.T) {
 
 	w.put(map[string]any{"ev": "summary", "lines": lines, "records": x.clock, "discard": x.discard,
 		"payload_bad": payloadBad, "mem": ms, "file": fe, "queries": x.queries,
-		"bytes": zzC07Size(filepath.Join(x.dir, queryLogFileName)) + zzC07Size(filepath.Join(x.dir, queryLogFileName+".1"))})
+		"bytes": x.maxFile})
+
+	// The incremental projection is checked against a full read at the end.
+	x.incremental = false
+	full, err := x.project(0)
+	x.incremental = true
+	inc, err2 := x.project(0)
+	if err != nil || err2 != nil || !reflect.DeepEqual(full, inc) {
+		t.Fatalf("incremental projection diverged: %v %v\n%v\n%v", err, err2, full, inc)
+	}
 }
 
 func zzC07B2I(b bool) (i int) {
